@@ -1891,12 +1891,9 @@ func ruleHaltThrough(c *Ctx, r *Rep) {
 		return
 	}
 	info := vm.info
-	isHalt := func(e ast.Expr) bool {
+	isT := func(e ast.Expr, name string) bool {
 		t := info.TypeOf(e)
-		if t == nil {
-			return false
-		}
-		return isNamed(derefType(t), pathGojq, "HaltError")
+		return t != nil && isNamed(derefType(t), pathGojq, name)
 	}
 	leaves := func(body []ast.Stmt) bool {
 		if len(body) == 0 {
@@ -1909,6 +1906,34 @@ func ruleHaltThrough(c *Ctx, r *Rep) {
 			return true
 		}
 		return false
+	}
+	// a helper func(err error) bool that looks through *tryEndError and recognises *HaltError
+	seesThrough := func(call *ast.CallExpr) bool {
+		f, ok := callee(info, call).(*types.Func)
+		if !ok || f.Pkg() == nil || f.Pkg().Path() != pathGojq {
+			return false
+		}
+		fd := c.Decl(c.Gojq, f.Name())
+		if fd == nil {
+			return false
+		}
+		halt, wrapped := false, false
+		ast.Inspect(fd.Body, func(q ast.Node) bool {
+			switch x := q.(type) {
+			case *ast.CaseClause:
+				for _, e := range x.List {
+					halt = halt || isT(e, "HaltError")
+					wrapped = wrapped || isT(e, "tryEndError")
+				}
+			case *ast.TypeAssertExpr:
+				if x.Type != nil {
+					halt = halt || isT(x.Type, "HaltError")
+					wrapped = wrapped || isT(x.Type, "tryEndError")
+				}
+			}
+			return true
+		})
+		return halt && wrapped
 	}
 	n := 0
 	for _, cl := range vm.Clauses {
@@ -1928,21 +1953,21 @@ func ruleHaltThrough(c *Ctx, r *Rep) {
 				return true
 			}
 			n++
-			through := ""
-			// (iii) nested in a branch that asserted one specific other error type
-			for i := len(stack) - 1; i >= 0 && through == ""; i-- {
+			halt, wrapped, specific := false, false, ""
+			// nested in a branch that asserted one specific other error type: neither a halt nor a wrapped halt gets here
+			for i := len(stack) - 1; i >= 0 && specific == ""; i-- {
 				if ifs, ok := stack[i].(*ast.IfStmt); ok && ifs.Init != nil && ifs.Body.Pos() <= as.Pos() && as.End() <= ifs.Body.End() {
 					if ias, ok := ifs.Init.(*ast.AssignStmt); ok && len(ias.Rhs) == 1 {
-						if ta, ok := unparen(ias.Rhs[0]).(*ast.TypeAssertExpr); ok && vm.isVar(ta.X, "err") && ta.Type != nil && !isHalt(ta.Type) {
+						if ta, ok := unparen(ias.Rhs[0]).(*ast.TypeAssertExpr); ok && vm.isVar(ta.X, "err") && ta.Type != nil && !isT(ta.Type, "HaltError") && !isT(ta.Type, "tryEndError") {
 							if _, isIface := info.TypeOf(ta.Type).Underlying().(*types.Interface); !isIface {
-								through = "only errors of type " + c.Src(ta.Type) + " are intercepted"
+								specific = c.Src(ta.Type)
 							}
 						}
 					}
 				}
 			}
-			// (i)/(ii) a dominating exit for *HaltError: earlier statement of an enclosing list
-			for i := len(stack) - 1; i >= 0 && through == ""; i-- {
+			// dominating exits: earlier statements of an enclosing statement list
+			for i := len(stack) - 1; i >= 0; i-- {
 				var list []ast.Stmt
 				switch b := stack[i].(type) {
 				case *ast.BlockStmt:
@@ -1971,25 +1996,43 @@ func ruleHaltThrough(c *Ctx, r *Rep) {
 						for _, s := range x.Body.List {
 							cc := s.(*ast.CaseClause)
 							for _, e := range cc.List {
-								if isHalt(e) && leaves(cc.Body) {
-									through = "the type switch on err leaves the clause for *HaltError"
+								if leaves(cc.Body) {
+									halt = halt || isT(e, "HaltError")
+									wrapped = wrapped || isT(e, "tryEndError")
 								}
 							}
 						}
 					case *ast.IfStmt:
-						if x.Init == nil {
+						if !leaves(x.Body.List) {
 							continue
 						}
-						if ias, ok := x.Init.(*ast.AssignStmt); ok && len(ias.Rhs) == 1 {
-							if ta, ok := unparen(ias.Rhs[0]).(*ast.TypeAssertExpr); ok && vm.isVar(ta.X, "err") && ta.Type != nil && isHalt(ta.Type) && leaves(x.Body.List) {
-								through = "an earlier test leaves the clause for *HaltError"
+						if x.Init != nil {
+							if ias, ok := x.Init.(*ast.AssignStmt); ok && len(ias.Rhs) == 1 {
+								if ta, ok := unparen(ias.Rhs[0]).(*ast.TypeAssertExpr); ok && vm.isVar(ta.X, "err") && ta.Type != nil {
+									halt = halt || isT(ta.Type, "HaltError")
+									wrapped = wrapped || isT(ta.Type, "tryEndError")
+								}
 							}
+						}
+						if call, ok := unparen(x.Cond).(*ast.CallExpr); ok && len(call.Args) == 1 && vm.isVar(call.Args[0], "err") && seesThrough(call) {
+							halt, wrapped = true, true
 						}
 					}
 				}
 			}
-			r.Check(through != "", "intercept:"+name, as.Pos(), "%s clears err and resumes on re-entry; *HaltError is let through first: %s", name,
-				map[bool]string{true: through, false: "NO — halt/halt_error inside this construct would be treated as an ordinary error (`[1] | . as [$a] ?// $b | \"\\($a) \\($b)\\n\" | halt_error` evaluates the body again for the next alternative and prints `null [1]`; jq stops at once with `1 null`)"}[through != ""])
+			good := specific != "" || (halt && wrapped)
+			why := ""
+			switch {
+			case specific != "":
+				why = "only errors of type " + specific + " are intercepted"
+			case halt && wrapped:
+				why = "*HaltError leaves the clause, also when wrapped in *tryEndError"
+			case halt:
+				why = "NO for a halt wrapped in *tryEndError — a halt raised after a try body that contains this construct arrives wrapped (`[1] | try (. as [$a] ?// $a | $a) | debug | halt_error(3)` runs debug and halt_error twice and prints [1]; jq prints 1)"
+			default:
+				why = "NO — halt/halt_error inside this construct would be treated as an ordinary error (`[1] | . as [$a] ?// $b | \"\\($a) \\($b)\\n\" | halt_error` evaluates the body again for the next alternative and prints `null [1]`; jq stops at once with `1 null`)"
+			}
+			r.Check(good, "intercept:"+name, as.Pos(), "%s clears err and resumes on re-entry; *HaltError is let through first: %s", name, why)
 			return true
 		})
 	}
